@@ -676,7 +676,10 @@ impl Node {
         tracing::debug!("RPC reply_to_pid: {:?}", reply_to_pid);
 
         tracing::trace!("Looking up connection for node: {}", remote_node);
-        if let Some(conn) = self.connections.get(remote_node) {
+        // take the handle out of the table: a reference into the map must not be held across an await
+        // (the receiver task removes the entry when the connection ends and would block on it)
+        let conn = self.connections.get(remote_node).map(|c| c.value().clone());
+        if let Some(conn) = conn {
             tracing::trace!("Found connection, sending to rex");
             #[cfg(edp_rs_verif)]
             edp_client::verif_hooks::yield_point("rpc:before_lock").await;
